@@ -473,6 +473,21 @@ func genSplit(g *Gen, n int) {
 			cvas = append(cvas, a)
 			g.count("pattern/delegated-exceeds-vesting")
 		}
+		if sc%3 == 0 {
+			// directed shape: a recorded account that has delegated its WHOLE balance (bank balance 0,
+			// everything still vesting) must still be counted by both summaries
+			c := vaddr(fresh)
+			fresh++
+			amt := 1000000 + g.intn(1000000)
+			g.emit("v.acct %s cva [uc4e=%d] %d %d", c, amt, nowS-g.pickI(0, 100), nowS+g.pickI(1000, 100000))
+			g.emit("v.fund %s [uc4e=%d]", c, amt)
+			g.emit("v.trace %s %d 0 0", c, g.intn(2))
+			g.emit("v.delegate %s uc4e %d", c, amt)
+			g.emit("v.q.summary 0")
+			g.emit("v.q.summary 1")
+			cvas = append(cvas, c)
+			g.count("shape/whole-balance-delegated")
+		}
 		for i := 0; i < 4+g.intn(10); i++ {
 			src := cvas[g.intn(len(cvas))]
 			switch g.intn(9) {
